@@ -23,6 +23,7 @@ from pathlib import Path
 
 from .. import render as R
 from .. import tlc
+from ..frontends import docutils_doctree
 from ..pool import pmap
 
 META = {
@@ -502,7 +503,7 @@ def trace_leg(ctx, focus, extra_docs=()):
         traces.append(o)
     consts = {"Grammar": "<-GrammarV", "MaxItems": 0, "MaxDepth": 0, "DevHrAnywhere": False, "DevAltTextOnly": False}
     # TLC reads a batch of traces at start-up: bounded batches, a few TLC processes side by side
-    B = 4000
+    B = 1500
     batches = [traces[i:i + B] for i in range(0, len(traces), B)] or [[]]
 
     def _batch(nb):
@@ -542,6 +543,58 @@ def trace_leg(ctx, focus, extra_docs=()):
             ctx.violation(f"identifiers: a duplicate id, or a refid/backref that points at no element and has no warning ({case['source']})", case)
     ctx.leg("V", traces=len(traces), outside_vocabulary=sum(skipped.values()), reasons=dict(sorted(skipped.items(), key=lambda kv: -kv[1])[:8]))
     return docs
+
+
+LINK_TEXTS = ["plain", "*em* and **strong**", "`code`", "$E=mc^2$", "![](badge.svg)", "![alt](img.png)", "a ![b](i.png) c",
+              "<kbd>x</kbd>", "~~gone~~", "$a$ and `b`", " ", "\\*lit\\*"]
+LINK_DESTS = ["other.md", "other.md#sec", "./other.md", "nosuchdoc", "<project:other.md>", "extra.txt", "#sec", "<path:extra.txt>"]
+
+
+def _leaves(nodes):
+    return [(n["k"], n["t"]) for n in nodes if n["k"] in R.LEAF_NODES or n["k"] == "#text"]
+
+
+def sphinx_link_leg(ctx):
+    """The children of a link are rendered whatever kind of destination it has: a link to a document, a file, a label or
+    an unknown name under Sphinx carries the same leaves (text, math, images, code, raw HTML) as the same link to a URL
+    under docutils (Render.tla: a link is a container; its children are the image of the token's children)."""
+    from ..sphinx_runner import STASH_PARSED, run_project
+    docs, exp = {}, {}
+    for i, txt in enumerate(LINK_TEXTS):
+        base, _ = docutils_doctree(f"[{txt}](https://ex.org/x)\n", {"myst_enable_extensions": EXT})
+        exp[i] = _leaves(R.project(base)[0])
+        for j, dest in enumerate(LINK_DESTS):
+            if dest.startswith("<"):
+                if txt != "plain":
+                    continue
+                docs[f"l{i}_{j}"] = (i, f"{dest}\n", True)
+            else:
+                docs[f"l{i}_{j}"] = (i, f"[{txt}]({dest})\n", False)
+    files = {f"{k}.md": v[1] for k, v in docs.items()}
+    files["other.md"] = "# Other\n\n(sec)=\n## Sec\n"
+    files["extra.txt"] = "x\n"
+    files["index.md"] = "# I\n\n(sec)=\n## Here\n\n```{toctree}\n:hidden:\n\nother\n" + "\n".join(docs) + "\n```\n"
+    r = run_project(ctx.wd / "sx_links", files, {"myst_enable_extensions": EXT}, resolve=False, conf_extra=STASH_PARSED)
+    if not r["ok"]:
+        ctx.violation(f"Sphinx build of the link documents failed: {r['error']}", {"leg": "R-sphinx-links", "files": files})
+        return
+    n = 0
+    for k, (i, text, auto) in docs.items():
+        t = r["stash"].get(k)
+        ctx.count(("sphinx-link", k))
+        ctx.traces_validated += 1
+        n += 1
+        if t is None:
+            ctx.violation("no doctree for a link document", {"leg": "R-sphinx-links", "markdown": text})
+            continue
+        got = _leaves(R.project(t)[0])
+        if auto:
+            continue            # (an autolink has no children of its own; rendered = built)
+        if got != exp[i]:
+            ctx.violation(f"Sphinx: the children of the link {text.strip()!r} are not the image of the token's children: expected leaves {exp[i]}, observed {got}",
+                          {"leg": "R-sphinx-links", "front_end": "sphinx", "markdown": text})
+    ctx.leg("R-sphinx-links", documents=n)
+    shutil.rmtree(ctx.wd / "sx_links", ignore_errors=True)
 
 
 def highlight_leg(ctx):
@@ -599,6 +652,7 @@ def run(ctx):
     recs = run_render(ctx, "C02")
     replay_leg(ctx, recs)
     highlight_leg(ctx)
+    sphinx_link_leg(ctx)
     trace_leg(ctx, "C02")
     shutil.rmtree(ctx.wd / "docs", ignore_errors=True)
     ctx.exhaustive = True
